@@ -81,6 +81,16 @@ func mk() *fixtures {
 	f.creds, err = jwt.FormatUserConfig(f.userTok, seed)
 	must(err)
 	f.sharedAcct, err = jwt.DecodeAccountClaims(f.acctTok)
+	if err == nil {
+		// as an account built in memory (or read from a token another encoder wrote) holds them: exports and imports in
+		// insertion order, not in subject order - queries and printing must not reorder what goroutines share
+		f.sharedAcct.Exports = jwt.Exports{
+			&jwt.Export{Subject: "orders.>", Type: jwt.Stream}, &jwt.Export{Subject: "foo.>", Type: jwt.Stream},
+			&jwt.Export{Subject: "bar.*", Type: jwt.Service}, &jwt.Export{Subject: "alpha.req", Type: jwt.Service}}
+		f.sharedAcct.Imports = jwt.Imports{
+			&jwt.Import{Subject: "z.events", Account: apk, Type: jwt.Stream}, &jwt.Import{Subject: "m.events", Account: apk, Type: jwt.Stream},
+			&jwt.Import{Subject: "a.events", Account: apk, Type: jwt.Stream}}
+	}
 	must(err)
 	f.sharedOp, _ = jwt.DecodeOperatorClaims(f.opTok)
 	f.sharedUser, _ = jwt.DecodeUserClaims(f.userTok)
@@ -145,6 +155,17 @@ func script(f *fixtures, g, r int) []string {
 		add("didsign op->acct=%v acct->user=%v acct->act=%v", f.sharedOp.DidSign(f.sharedAcct), f.sharedAcct.DidSign(f.sharedUser), f.sharedAcct.DidSign(f.sharedAct))
 		add("revoked=%v %v", f.sharedAcct.IsClaimRevoked(f.sharedUser), f.sharedAcct.Revocations.IsRevoked("zzz", time.Unix(60, 0)))
 		add("export=%v %v", f.sharedAcct.Exports.HasExportContainingSubject("foo.x"), f.sharedAcct.Exports.HasExportContainingSubject("nope"))
+		// the order in which the shared object holds its lists is part of what a reader sees: no query may change it
+		{
+			var es, is []string
+			for _, e := range f.sharedAcct.Exports {
+				es = append(es, string(e.Subject))
+			}
+			for _, i := range f.sharedAcct.Imports {
+				is = append(is, string(i.Subject))
+			}
+			add("order exports=%v imports=%v", es, is)
+		}
 		h, _ := f.sharedAct.HashID()
 		add("hash=%s type=%s prefixes=%v", h[:6], f.sharedAcct.ClaimType(), f.sharedUser.ExpectedPrefixes())
 		add("str=%d %d tags=%v keys=%d", len(f.sharedAcct.String()), len(f.sharedUser.String()), f.sharedUser.GetTags(), len(f.sharedAcct.SigningKeys.Keys()))
